@@ -201,6 +201,53 @@ class SharedConvBn(nn.Module):
         return self.head(self.c0(y))
 
 
+class ExpandDwExcluded(nn.Module):
+    """a grouped convolution with a channel multiplier (groups == in_channels, out_channels == 2 x in_channels), excluded from the search (PIT cannot
+    convert it): it DEFINES the features its consumer sees"""
+    def __init__(self):
+        super().__init__()
+        self.f0 = nn.Conv1d(2, 4, 1, groups=2)
+        self.c1 = nn.Conv1d(4, 2, 1)
+        self.head = nn.Conv1d(2, 1, 1)
+
+    def forward(self, x):
+        return self.head(F.relu(self.c1(self.f0(x))))
+
+
+class FlattenEnd(nn.Module):
+    """flatten written with an explicit (inclusive) end_dim"""
+    def __init__(self):
+        super().__init__()
+        self.c0 = nn.Conv2d(1, 2, 1)
+        self.fc = nn.Linear(8, 2)
+
+    def forward(self, x):
+        return self.fc(torch.flatten(F.relu(self.c0(x)), 1, 3))
+
+
+class FlattenNegative(nn.Module):
+    """flatten written with a negative start_dim (the channels are included: -3 on an NCHW tensor)"""
+    def __init__(self):
+        super().__init__()
+        self.c0 = nn.Conv2d(1, 2, 1)
+        self.fc = nn.Linear(8, 2)
+
+    def forward(self, x):
+        return self.fc(torch.flatten(F.relu(self.c0(x)), -3))
+
+
+class SelfConcat(nn.Module):
+    """a tensor concatenated with ITSELF along the channels"""
+    def __init__(self):
+        super().__init__()
+        self.c0 = nn.Conv1d(2, 2, 1)
+        self.head = nn.Conv1d(4, 1, 1)
+
+    def forward(self, x):
+        a = F.relu(self.c0(x))
+        return self.head(torch.cat((a, a), 1))
+
+
 class ConcatOutput(nn.Module):
     """the network output IS a channel concatenation: both operands are tied to the output width"""
     def __init__(self):
@@ -272,13 +319,17 @@ EXTRA_NETS = {
     'excluded-consumer': (ExcludedConsumer, (1, 2, 2), {'c0': 'frozen', 'head': 'frozen'}, {'c0': None, 'head': [2]}),
     'symmetric-pad-module': (SymmetricPadModule, (1, 2, 3), {'head': 'frozen'}, {}),
     'shared-conv-bn': (SharedConvBn, (1, 2, 2), {'head': 'frozen'}, {}),
+    'expand-dw-excluded': (ExpandDwExcluded, (1, 2, 2), {'c1': 'free', 'head': 'frozen'}, {'c1': [4], 'head': ['c1']}),
+    'flatten-end': (FlattenEnd, (1, 1, 2, 2), {'c0': 'free', 'fc': 'frozen'}, {'c0': None, 'fc': ('flatten', 'c0', 4)}),
+    'flatten-negative': (FlattenNegative, (1, 1, 2, 2), {'c0': 'free', 'fc': 'frozen'}, {'c0': None, 'fc': ('flatten', 'c0', 4)}),
+    'self-concat': (SelfConcat, (1, 2, 2), {'c0': 'free', 'head': 'frozen'}, {'c0': None, 'head': ['c0', 'c0']}),
     'temporal-symmetric': (TemporalSymmetric, (1, 1, 4), {'c0': 'free', 'tc': 'free', 'head': 'frozen'}, {'c0': None, 'tc': ['c0'], 'head': ['tc']}),
 }
 NETS.update(EXTRA_NETS)
 
 
 CAUSALLY_PADDED = {'temporal': ('tc',), 'temporal-symmetric': ('tc',)}       # layers whose receptive-field / dilation masks are symbolic
-PIT_KWARGS = {'concat-fixed': {'exclude_names': ('f0', 'f1')}, 'add-excluded': {'exclude_names': ('f1',)}, 'excluded-consumer': {'exclude_names': ('f1',)}}
+PIT_KWARGS = {'concat-fixed': {'exclude_names': ('f0', 'f1')}, 'add-excluded': {'exclude_names': ('f1',)}, 'excluded-consumer': {'exclude_names': ('f1',)}, 'expand-dw-excluded': {'exclude_names': ('f0',)}}
 
 
 def _symbolic_state(H, net):
@@ -491,9 +542,13 @@ HARNESSES = [
     dict(name='whole-import-reported', bounded='enumerated architectures (EXTRA_NETS)', fn='h_import', property=['C07'], functions=_FUNCS,
          quick=[dict(net=n, training=False, fold_bn=False) for n in ('symmetric-pad-module', 'shared-conv-bn')],
          thorough=[dict(net=n, training=t, fold_bn=f) for n in ('symmetric-pad-module', 'shared-conv-bn') for t in _B for f in _B], timeout=120),
+    dict(name='whole-search-export-flatten', bounded='enumerated architectures (EXTRA_NETS)', fn='h_search_export', property=['C09', 'C01', 'C04'], functions=_FUNCS,
+         quick=[dict(net=n) for n in ('flatten-end', 'flatten-negative')], thorough=[dict(net=n) for n in ('flatten-end', 'flatten-negative')], timeout=120),
+    dict(name='whole-search-export-self-concat', bounded='enumerated architectures (EXTRA_NETS)', fn='h_search_export', property=['C09'], functions=_FUNCS,
+         quick=[dict(net='self-concat')], thorough=[dict(net='self-concat')], timeout=120),
     dict(name='whole-import-excluded', bounded='enumerated architectures (EXTRA_NETS)', fn='h_import', property=['C09'], functions=_FUNCS,
          quick=[dict(net=n, training=False, fold_bn=False) for n in ('add-excluded', 'excluded-consumer')],
          thorough=[dict(net=n, training=False, fold_bn=False) for n in ('add-excluded', 'excluded-consumer')], timeout=120),
     dict(name='whole-search-export-excluded', bounded='enumerated architectures (EXTRA_NETS)', fn='h_search_export', property=['C09'], functions=_FUNCS,
-         quick=[dict(net=n) for n in ('add-excluded', 'excluded-consumer')], thorough=[dict(net=n) for n in ('add-excluded', 'excluded-consumer')], timeout=120),
+         quick=[dict(net=n) for n in ('add-excluded', 'excluded-consumer', 'expand-dw-excluded')], thorough=[dict(net=n) for n in ('add-excluded', 'excluded-consumer', 'expand-dw-excluded')], timeout=120),
 ]
